@@ -1,18 +1,303 @@
 /-
-C27 — Integer parsing is exact and overflow-safe (first version: witnesses only; the general theorems follow).
+C27 — Integer parsing is exact and overflow-safe.
+
+Property theorems only. Models: `Base/TokInt.lean` (`Parser::Tokenizer::int64`, `udec64`; C integer types explicit,
+signed overflow = outcome `ub`), `IntParse/Header.lean` (`httpHeaderParseOffset`, `httpHeaderParseInt` over a specification of
+strtoll/strtol/atoi). Specification: `Base/TokIntSpec.lean` (unbounded Horner value of the maximal digit run + range test).
+All statements are for every byte string, every C `int` base, both sign settings and every limit (no size bound).
+
+Full statement of the property for `int64`, FALSE for the code as it stands (signed accumulator):
+  `∀ buf base allowSign limit, int64Raw buf base allowSign limit = specInt64 buf base allowSign limit`
+  (in particular `≠ ub`). It fails exactly on `inUbZone` (`int64_ub_iff`), witness `int64_ub_counterexample`;
+  proved with the zone excluded as `int64_refines_spec_partial`, and in full for an unsigned accumulator
+  (`int64_refines_spec_unsigned`; `Gen.TokConsts.accSigned` says which one the staged source has).
+Full statement for `httpHeaderParseInt`, FALSE for the atoi-based code: "returns the exact value or fails";
+  witness `parseInt_wraps_counterexample`; proved for values that fit an `int` as `parseInt_exact_partial`, and in full
+  for the range-checked variant (`parseInt_exact_checked`).
 -/
-import SquidModel.Base.TokInt
-import SquidModel.IntParse.Header
+import SquidModel.Base.TokIntLemmas
+import SquidModel.Base.TokLemmas
+import SquidModel.IntParse.Lemmas
 
 namespace SquidModel.C27
 open SquidModel.Tok SquidModel.IntParse
+open SquidModel.Gen.TokConsts (accSigned parseIntUsesAtoi)
 
-/-- With a signed accumulator, `int64("-9223372036854775808", 10, true)` overflows. -/
+/-! ### the constants of the model are those of the staged tree -/
+
+theorem limits_match_source :
+    i64Max = Gen.TokConsts.int64Max ∧ i64Min = Gen.TokConsts.int64Min ∧ (two63 : Int) = Gen.TokConsts.int64Max + 1 ∧
+    Tok.npos = Gen.TokConsts.npos ∧ Tok.maxSize = Gen.TokConsts.maxSize ∧ Tok.maxSize < Tok.npos ∧
+    Gen.TokConsts.llongMax = Gen.TokConsts.int64Max ∧ Gen.TokConsts.llongMin = Gen.TokConsts.int64Min ∧
+    Gen.TokConsts.longMax = Gen.TokConsts.int64Max ∧ Gen.TokConsts.longMin = Gen.TokConsts.int64Min ∧
+    Gen.TokConsts.intMax = 2147483647 ∧ Gen.TokConsts.intMin = -2147483648 := by decide
+
+/-! ### Tokenizer::int64 -/
+
+/-- **Refinement, with the overflow zone excluded.** Outside `inUbZone` the parser returns exactly what the
+arbitrary-precision specification says, whatever the type of the accumulator. -/
+theorem int64_refines_spec_partial (buf : Bytes) (base : Int) (hb : base < 2147483648) (allowSign : Bool) (limit : Nat)
+    (hz : inUbZone buf base allowSign limit = false) :
+    int64Raw buf base allowSign limit = specInt64 buf base allowSign limit := by
+  unfold int64Raw
+  rw [int64Core_eq _ buf base hb allowSign limit, hz]
+  simp
+
+/-- **Refinement, full**, for an unsigned accumulator: equality with the specification on every input. -/
+theorem int64_refines_spec_unsigned (buf : Bytes) (base : Int) (hb : base < 2147483648) (allowSign : Bool) (limit : Nat) :
+    int64Core false buf base allowSign limit = specInt64 buf base allowSign limit := by
+  rw [int64Core_eq false buf base hb allowSign limit]
+  simp
+
+/-- … hence, if the staged source declares the accumulator unsigned, the code as it stands is exact everywhere. -/
+theorem int64_refines_spec (h : accSigned = false) (buf : Bytes) (base : Int) (hb : base < 2147483648) (allowSign : Bool)
+    (limit : Nat) : int64Raw buf base allowSign limit = specInt64 buf base allowSign limit := by
+  unfold int64Raw; rw [h]; exact int64_refines_spec_unsigned buf base hb allowSign limit
+
+/-- **No undefined behaviour** outside the zone (any accumulator type) … -/
+theorem int64_no_ub_partial (signed : Bool) (buf : Bytes) (base : Int) (hb : base < 2147483648) (allowSign : Bool) (limit : Nat)
+    (hz : inUbZone buf base allowSign limit = false) : int64Core signed buf base allowSign limit ≠ .ub := by
+  rw [int64Core_eq signed buf base hb allowSign limit, hz]
+  simpa using specInt64_ne_ub buf base allowSign limit
+
+/-- … and the signed accumulator overflows on exactly the zone: a '-' numeral (sign accepted) one of whose digit-run
+prefixes denotes 2^63. -/
+theorem int64_ub_iff (buf : Bytes) (base : Int) (hb : base < 2147483648) (allowSign : Bool) (limit : Nat) :
+    int64Core true buf base allowSign limit = .ub ↔ inUbZone buf base allowSign limit = true := by
+  rw [int64Core_eq true buf base hb allowSign limit]
+  cases hz : inUbZone buf base allowSign limit with
+  | true => simp
+  | false => simpa using specInt64_ne_ub buf base allowSign limit
+
+/-- the unsigned accumulator never overflows -/
+theorem int64_no_ub_unsigned (buf : Bytes) (base : Int) (hb : base < 2147483648) (allowSign : Bool) (limit : Nat) :
+    int64Core false buf base allowSign limit ≠ .ub := by
+  rw [int64_refines_spec_unsigned buf base hb allowSign limit]
+  exact specInt64_ne_ub buf base allowSign limit
+
+/-- The violation on the real code: `int64("-9223372036854775808", base 10, allowSign)` with the `int64_t`
+accumulator is a signed overflow (confirmed under UBSan at parser/Tokenizer.cc:297), although -2^63 fits. -/
 theorem int64_ub_counterexample :
     int64Core true [45,57,50,50,51,51,55,50,48,51,54,56,53,52,55,55,53,56,48,56] 10 true npos = .ub := by decide
 
-/-- `httpHeaderParseInt("4294967297")` returns 1. -/
-theorem parseInt_wraps_counterexample :
-    parseIntCore true [52,50,57,52,57,54,55,50,57,55] = some 1 := by decide
+/-- in base 16 the multiplication `acc *= base` overflows (Tokenizer.cc:296): "-8000000000000000" -/
+theorem int64_ub_counterexample_hex :
+    int64Core true [45,56,48,48,48,48,48,48,48,48,48,48,48,48,48,48,48] 16 true npos = .ub := by decide
+
+/-- the effective base as a function of the visible pieces of the numeral -/
+def effBase (base : Int) (pre ds : Bytes) : Int :=
+  if pre ≠ [] then 16 else if base = 0 then (if ds.head? = some 48 then 8 else 10) else base
+
+/-- **Exactness.** Whenever `int64` returns a value `v` and a consumed length `k`, the first `k` bytes of the
+(limited) buffer are `[sign][0x]digits` with: a sign only if `allowSign`; a `0x`/`0X` prefix only for base 0 or 16; a
+non-empty run of digits valid in the effective base; the run is maximal (the next byte inside the limit, if any, is not a
+digit of that base); `v` is the exact (unbounded Horner) value of the digits with the sign applied; and `v` fits int64. -/
+theorem int64_exact (buf : Bytes) (base : Int) (hb : base < 2147483648) (allowSign : Bool) (limit : Nat) (v : Int) (k : Nat)
+    (h : int64Raw buf base allowSign limit = .ok v k) :
+    ∃ sg pre ds rest,
+      sg ++ pre ++ ds ++ rest = takeLim limit buf ∧ k = sg.length + pre.length + ds.length ∧
+      (sg = [] ∨ (allowSign = true ∧ (sg = [45] ∨ sg = [43]))) ∧
+      (pre = [] ∨ ((base = 0 ∨ base = 16) ∧ (pre = [48, 120] ∨ pre = [48, 88]))) ∧
+      ds ≠ [] ∧ (∀ c ∈ ds, validDigit (effBase base pre ds) c = true) ∧
+      (rest = [] ∨ ∃ c r, rest = c :: r ∧ validDigit (effBase base pre ds) c = false) ∧
+      v = signedValue (sg == [45]) (effBase base pre ds) ds ∧ i64Min ≤ v ∧ v ≤ i64Max := by
+  -- the result is `ok`, so it is the specification's result
+  have hspec : specInt64 buf base allowSign limit = .ok v k := by
+    unfold int64Raw at h
+    rw [int64Core_eq _ buf base hb allowSign limit] at h
+    split at h
+    · cases h
+    · exact h
+  unfold specInt64 at hspec
+  simp only at hspec
+  split at hspec
+  · cases hspec
+  split at hspec
+  · cases hspec
+  split at hspec
+  · cases hspec
+  rename_i h1 h2 h3
+  obtain ⟨sg, hsg1, hsg2, hsg3⟩ := lexSign_spec allowSign (takeLim limit buf)
+  obtain ⟨pre, hpre1, hpre2, hpre3⟩ := lexPrefix_spec base (lexSign allowSign (takeLim limit buf)).2.1 (lexSign allowSign (takeLim limit buf)).2.2
+  obtain ⟨hne, hk, hv, hlo, hhi⟩ := specDigits_ok hspec
+  generalize hb' : resolveBase (lexPrefix base (lexSign allowSign (takeLim limit buf)).2.1 (lexSign allowSign (takeLim limit buf)).2.2).1
+      (lexPrefix base (lexSign allowSign (takeLim limit buf)).2.1 (lexSign allowSign (takeLim limit buf)).2.2).2.1 = b at *
+  generalize hs' : (lexPrefix base (lexSign allowSign (takeLim limit buf)).2.1 (lexSign allowSign (takeLim limit buf)).2.2).2.1 = s' at *
+  obtain ⟨ds, rest, hdr, hds, hall, hmax⟩ := takeWhile_decomp (validDigit b) s'
+  rw [← hds] at hne hk hv
+  -- the effective base computed from the pieces is the resolved base
+  have heff : effBase base pre ds = b := by
+    unfold effBase
+    rcases hpre3 with ⟨hp, hb1⟩ | ⟨_, hp, hb1⟩
+    · subst hp
+      simp only [ne_eq, not_true_eq_false, if_false]
+      rw [hb1] at hb'
+      rw [← hb']
+      unfold resolveBase
+      by_cases hb0 : base = 0
+      · simp only [hb0, if_true]
+        cases ds with
+        | nil => exact absurd rfl hne
+        | cons c r =>
+          rw [← hdr]
+          simp only [List.cons_append, List.head?_cons, Option.some.injEq]
+      · simp [hb0]
+    · have hpne : pre ≠ [] := by rcases hp with rfl | rfl <;> simp
+      simp only [ne_eq, hpne, not_false_eq_true, if_true]
+      rw [hb1] at hb'
+      rw [← hb']
+      simp [resolveBase]
+  have hneg : (lexSign allowSign (takeLim limit buf)).1 = (sg == [45]) := by
+    rcases hsg3 with ⟨rfl, e⟩ | ⟨_, rfl, e⟩ | ⟨_, rfl, e⟩ <;> rw [e] <;> rfl
+  refine ⟨sg, pre, ds, rest, ?_, ?_, ?_, ?_, hne, ?_, ?_, ?_, hlo, hhi⟩
+  · rw [← hsg1, ← hpre1, ← hdr]; simp [List.append_assoc]
+  · rw [hk, hpre2, hsg2]
+  · rcases hsg3 with ⟨e, _⟩ | ⟨a, e, _⟩ | ⟨a, e, _⟩
+    · exact Or.inl e
+    · exact Or.inr ⟨a, Or.inl e⟩
+    · exact Or.inr ⟨a, Or.inr e⟩
+  · rcases hpre3 with ⟨e, _⟩ | ⟨a, e, _⟩
+    · exact Or.inl e
+    · exact Or.inr ⟨a, e⟩
+  · rw [heff]; exact hall
+  · rw [heff]; exact hmax
+  · rw [heff, ← hneg]; exact hv
+
+/-- the maximal digit run the parser must look at, its sign and its base (spelled with the three lexical functions) -/
+def digitRun (buf : Bytes) (base : Int) (allowSign : Bool) (limit : Nat) : Bool × Int × Bytes :=
+  let sg := lexSign allowSign (takeLim limit buf)
+  let px := lexPrefix base sg.2.1 sg.2.2
+  let b := resolveBase px.1 px.2.1
+  (sg.1, b, px.2.1.takeWhile (validDigit b))
+
+/-- **Failure is justified.** Outside the overflow zone `int64` returns false exactly when there is no digit where the
+number must start (this covers the empty buffer, limit 0, a lone sign, `0x` without a hex digit) or the exact value of
+the maximal digit run does not fit int64. It never fails on a representable number, and never succeeds on one that is not. -/
+theorem int64_fails_iff (buf : Bytes) (base : Int) (hb : base < 2147483648) (allowSign : Bool) (limit : Nat)
+    (hz : inUbZone buf base allowSign limit = false) :
+    int64Raw buf base allowSign limit = .fail ↔
+      ((digitRun buf base allowSign limit).2.2 = [] ∨
+       ¬ (i64Min ≤ signedValue (digitRun buf base allowSign limit).1 (digitRun buf base allowSign limit).2.1 (digitRun buf base allowSign limit).2.2 ∧
+          signedValue (digitRun buf base allowSign limit).1 (digitRun buf base allowSign limit).2.1 (digitRun buf base allowSign limit).2.2 ≤ i64Max)) := by
+  rw [int64_refines_spec_partial buf base hb allowSign limit hz]
+  unfold specInt64 digitRun
+  simp only
+  by_cases h1 : (buf.isEmpty || limit == 0) = true
+  · have : takeLim limit buf = [] := by
+      simp only [Bool.or_eq_true, List.isEmpty_iff, beq_iff_eq] at h1
+      rcases h1 with h1 | h1
+      · simp [takeLim, h1]
+      · subst h1; exact takeLim_zero _
+    have e1 : (lexSign allowSign []).2.1 = [] := by unfold lexSign; cases allowSign <;> rfl
+    have e2 : ∀ o, (lexPrefix base [] o).2.1 = [] := by intro o; unfold lexPrefix; split <;> rfl
+    simp [h1, this, e1, e2]
+  · simp only [h1]
+    by_cases h2 : (allowSign && (lexSign allowSign (takeLim limit buf)).2.1.isEmpty) = true
+    · have : (lexSign allowSign (takeLim limit buf)).2.1 = [] := by
+        simp only [Bool.and_eq_true, List.isEmpty_iff] at h2; exact h2.2
+      have e2 : ∀ o, (lexPrefix base [] o).2.1 = [] := by intro o; unfold lexPrefix; split <;> rfl
+      simp [this, e2]
+    · simp only [h2]
+      by_cases h3 : (lexPrefix base (lexSign allowSign (takeLim limit buf)).2.1 (lexSign allowSign (takeLim limit buf)).2.2).2.1.isEmpty = true
+      · have : (lexPrefix base (lexSign allowSign (takeLim limit buf)).2.1 (lexSign allowSign (takeLim limit buf)).2.2).2.1 = [] := by
+          simpa using h3
+        simp [this]
+      · simp only [h3]
+        exact specDigits_fail_iff _ _ _ _
+
+/-- **Consumption.** On success the tokenizer drops exactly the `k` parsed characters and counts them; on failure
+nothing changes (`IntResult.fail` carries no new tokenizer: the caller keeps the old one). -/
+theorem int64_consumes_exactly (t : Tok) (base : Int) (allowSign : Bool) (limit : Nat) (v : Int) (t' : Tok)
+    (h : int64 t base allowSign limit = .ok v t') :
+    ∃ k, int64Raw t.buf base allowSign limit = .ok v k ∧ t'.buf = t.buf.drop k ∧ t.buf.take k ++ t'.buf = t.buf ∧
+      t'.parsed = t.parsed + (t.buf.take k).length := by
+  unfold int64 at h
+  cases hr : int64Raw t.buf base allowSign limit with
+  | ok v1 k =>
+    rw [hr] at h
+    simp only [IntResult.ok.injEq] at h
+    obtain ⟨rfl, rfl⟩ := h
+    exact ⟨k, rfl, rfl, by simp [consumeN], rfl⟩
+  | fail => rw [hr] at h; cases h
+  | ub => rw [hr] at h; cases h
+
+/-- `udec64` returns only non-negative values of unsigned decimal digit runs that are followed by more input -/
+theorem udec64_exact (t : Tok) (limit : Nat) (v : Int) (t' : Tok) (h : udec64 t limit = .ok v t') :
+    ∃ k, int64Raw t.buf 10 false limit = .ok v k ∧ t'.buf = t.buf.drop k ∧ t'.buf ≠ [] ∧ 0 ≤ v := by
+  unfold udec64 at h
+  split at h
+  · cases h
+  · cases hi : int64 t 10 false limit with
+    | fail => rw [hi] at h; cases h
+    | ub => rw [hi] at h; cases h
+    | ok v1 t1 =>
+      rw [hi] at h
+      simp only at h
+      split at h
+      · cases h
+      · rename_i hne
+        simp only [UdecResult.ok.injEq] at h
+        obtain ⟨rfl, rfl⟩ := h
+        obtain ⟨k, hk, hbuf, _, _⟩ := int64_consumes_exactly t 10 false limit v1 t1 hi
+        refine ⟨k, hk, hbuf, by simpa [atEnd] using hne, ?_⟩
+        obtain ⟨sg, pre, ds, rest, _, _, hsg, _, _, _, _, hv, _, _⟩ := int64_exact t.buf 10 (by decide) false limit v1 k hk
+        have : sg = [] := by rcases hsg with e | ⟨e, _⟩; exact e; cases e
+        subst this
+        rw [hv]
+        simp [signedValue]
+
+/-! ### httpHeaderParseOffset / httpHeaderParseInt -/
+
+/-- **httpHeaderParseOffset is exact**: success ⇔ `[ws][sign]digits` is present and its exact value fits int64; then the value and
+the end pointer are exactly those of that prefix. -/
+theorem parseOffset_exact (s : Bytes) :
+    parseOffset s = match exactDec s with
+      | none => none
+      | some (v, e) => if Gen.TokConsts.llongMin ≤ v ∧ v ≤ Gen.TokConsts.llongMax then some (v, e) else none :=
+  parseOffset_eq s
+
+/-- **httpHeaderParseInt, partial**: exact whenever the exact value fits an `int` (it then fails only for a zero value
+not written with a leading digit, e.g. " 0", "-0"). -/
+theorem parseInt_exact_partial (s : Bytes) (v : Int) (e : Nat) (hx : exactDec s = some (v, e))
+    (hr : Gen.TokConsts.intMin ≤ v ∧ v ≤ Gen.TokConsts.intMax) :
+    parseIntCore true s = if v = 0 ∧ isDigitC (firstChar s) = false then none else some v := by
+  rw [parseInt_atoi_partial, hx]
+  simp [hr]
+
+/-- without digits it fails -/
+theorem parseInt_no_digits (s : Bytes) (hx : exactDec s = none) : parseIntCore true s = none := by
+  rw [parseInt_atoi_partial, hx]
+
+/-- The violation on the real code: `httpHeaderParseInt("4294967297")` succeeds with 1. -/
+theorem parseInt_wraps_counterexample : parseIntCore true [52,50,57,52,57,54,55,50,57,55] = some 1 := by decide
+
+/-- and `httpHeaderParseInt("99999999999999999999")` succeeds with -1 (saturated `long`, truncated). -/
+theorem parseInt_wraps_counterexample_big :
+    parseIntCore true [57,57,57,57,57,57,57,57,57,57,57,57,57,57,57,57,57,57,57,57] = some (-1) := by decide
+
+/-- **httpHeaderParseInt, full, for the range-checked variant**: the exact value or failure, never a wrapped value. -/
+theorem parseInt_exact_checked (s : Bytes) :
+    parseIntCore false s = match exactDec s with
+      | none => none
+      | some (v, _) =>
+        if Gen.TokConsts.intMin ≤ v ∧ v ≤ Gen.TokConsts.intMax then
+          (if v = 0 ∧ isDigitC (firstChar s) = false then none else some v)
+        else none :=
+  parseInt_checked_eq s
+
+/-! ### non-vacuity -/
+
+example : int64Core true [45,57,50,50,51,51,55,50,48,51,54,56,53,52,55,55,53,56,48,55] 10 true npos = .ok (-9223372036854775807) 20 := by decide
+example : int64Core true [57,50,50,51,51,55,50,48,51,54,56,53,52,55,55,53,56,48,56] 10 true npos = .fail := by decide
+example : int64Core true [48,120,49,70,90] 0 true npos = .ok 31 4 := by decide
+example : int64Core true [48,57] 0 true npos = .ok 0 1 := by decide
+example : int64Core true [48,120] 16 true npos = .fail := by decide
+example : int64Core true [45,49] 10 false npos = .fail := by decide
+example : int64Core false [45,57,50,50,51,51,55,50,48,51,54,56,53,52,55,55,53,56,48,56] 10 true npos = .ok (-9223372036854775808) 20 := by decide
+example : inUbZone [45,57,50,50,51,51,55,50,48,51,54,56,53,52,55,55,53,56,48,56] 10 true npos = true := by decide
+example : inUbZone [45,57,50,50,51,51,55,50,48,51,54,56,53,52,55,55,53,56,48,55] 10 true npos = false := by decide
+example : parseOffset [32,45,49,50,97] = some (-12, 4) := by decide
+example : parseOffset [57,50,50,51,51,55,50,48,51,54,56,53,52,55,55,53,56,48,56] = none := by decide
+example : exactDec [52,50,57,52,57,54,55,50,57,55] = some (4294967297, 10) := by decide
 
 end SquidModel.C27
